@@ -652,3 +652,4 @@ TECHNIQUE = ("Lean 4 proof: corollaries of C16 (dag_iterator yields every edge o
              "lemmas for attributes; differential correspondence check through real pandas with shuffled edge orders, attributes, "
              "renaming attr_dicts, duplicate and cyclic relations; model-free oracle (edge multiset, names, attributes, refusal iff cycle)")
 RULE = RULE + ' Fourth session: every order of two (thorough: three) small cyclic relation lists; non-default pandas index for dataframe_to_dag.'
+RULE = RULE + ' Fifth session: DAGNode subclasses whose requested attributes are properties; one-off deep probe (spine of 120) through every export and constructor.'
